@@ -211,8 +211,8 @@ def _regex_of(tree: ast.Module, scope: ast.AST, node: ast.AST) -> str | None:
 
 def r19_3(rep: Report) -> None:
     rid = 'R19.3'
-    rep.rule(rid, "to_iso_datetime rewrites only a zero UTC offset to 'Z'; the parser builds the "
-                  'tzinfo from sign, hour and minute groups', floor=3)
+    rep.rule(rid, "to_iso_datetime rewrites only a zero UTC offset to 'Z'; the parser rebuilds the "
+                  'offset as sign * (60*hour + minute) minutes', floor=6)
     tree = rep.repo.tree(DT)
     fn = need(find_func(tree, 'to_iso_datetime'), f'{DT}::to_iso_datetime')
     construct = f'{DT}::to_iso_datetime'
@@ -290,26 +290,20 @@ def r19_3(rep: Report) -> None:
     else:
         rep.fail(rid, construct2, 'groups',
                  f'regex groups {sorted(groups)} but only {sorted(used)} are used', init)
-    # sign handling: a comparison with '-' must negate the offset
-    neg = False
-    for n in ast.walk(init):
-        if isinstance(n, ast.If) and "'-'" in norm(n.test):
-            for b in ast.walk(n):
-                if isinstance(b, ast.Assign) and isinstance(b.value, ast.UnaryOp) \
-                        and isinstance(b.value.op, ast.USub):
-                    neg = True
-                if isinstance(b, ast.AugAssign) and isinstance(b.op, ast.Mult):
-                    neg = True
-    if neg:
-        rep.ok(rid, construct2, 'sign', "'-' negates the offset")
-    else:
-        rep.fail(rid, construct2, 'sign', "no branch negates the offset for '-'", init)
-    # minutes: hour*60 + minute into timedelta(minutes=..)
-    txt = norm(init)
-    if re.search(r"group\('hour'\), 10\) \* 60", txt) and 'timedelta(minutes=' in txt:
-        rep.ok(rid, construct2, 'unit', 'hour*60 + minute -> timedelta(minutes=)')
-    else:
-        rep.fail(rid, construct2, 'unit', 'offset is not hour*60+minute minutes', init)
+    # the offset as a linear function of the hour and minute groups, for each sign
+    for negative in (False, True):
+        lf = _offset_linear(init, negative)
+        want = (-60, -1, 0) if negative else (60, 1, 0)
+        label = "offset for '-'" if negative else "offset for '+'"
+        if lf is None:
+            raise AnalysisError('FixedOffsetTimeZone.__init__: offset computation not recognised '
+                                '(unknown idiom)')
+        if lf == want:
+            rep.ok(rid, construct2, label, f'{lf[0]}*hour + {lf[1]}*minute minutes')
+        else:
+            rep.fail(rid, construct2, label,
+                     f'the UTC offset is computed as {lf[0]}*hour + {lf[1]}*minute + {lf[2]} minutes, '
+                     f'expected {want[0]}*hour + {want[1]}*minute', init)
     # parse_timezone: Z -> UTC, else FixedOffsetTimeZone(value)
     pt = need(find_func(tree, 'parse_timezone'), f'{DT}::parse_timezone')
     calls = {call_name(n) for n in ast.walk(pt) if isinstance(n, ast.Call)}
@@ -330,6 +324,109 @@ def r19_3(rep: Report) -> None:
     else:
         rep.fail(rid, f'{DT}::from_isodatetime', 'tzinfo',
                  'tzinfo group is not converted with parse_timezone', fi)
+
+
+def _offset_linear(fn: ast.FunctionDef, negative: bool):
+    """symbolic evaluation of FixedOffsetTimeZone.__init__: the timedelta stored as the offset,
+    in minutes, as (coefficient of hour, coefficient of minute, constant) under the given sign"""
+    env: dict[str, tuple] = {}
+    result = []
+
+    def is_sign_test(t: ast.AST):
+        """(True if test means "sign is '-'", False if it means '+', None if not a sign test)"""
+        txt = norm(t)
+        if "group('delta')" not in txt:
+            return None
+        if isinstance(t, ast.Compare) and len(t.ops) == 1 and isinstance(t.comparators[0], ast.Constant):
+            val = t.comparators[0].value
+            eq = isinstance(t.ops[0], ast.Eq)
+            if val == '-':
+                return eq
+            if val == '+':
+                return not eq
+        return None
+
+    def ev(e: ast.AST):
+        if isinstance(e, ast.Constant) and isinstance(e.value, (int, float)) and not isinstance(e.value, bool):
+            return (0, 0, e.value)
+        if isinstance(e, ast.Name) and e.id in env:
+            return env[e.id]
+        if isinstance(e, ast.Call) and call_name(e) == 'int' and e.args:
+            a = norm(e.args[0])
+            if "group('hour')" in a:
+                return (1, 0, 0)
+            if "group('minute')" in a:
+                return (0, 1, 0)
+            return ev(e.args[0])
+        if isinstance(e, ast.UnaryOp) and isinstance(e.op, ast.USub):
+            v = ev(e.operand)
+            return None if v is None else tuple(-x for x in v)
+        if isinstance(e, ast.BinOp):
+            a, b = ev(e.left), ev(e.right)
+            if a is None or b is None:
+                return None
+            if isinstance(e.op, ast.Add):
+                return tuple(x + y for x, y in zip(a, b))
+            if isinstance(e.op, ast.Sub):
+                return tuple(x - y for x, y in zip(a, b))
+            if isinstance(e.op, ast.Mult):
+                if a[0] == a[1] == 0:
+                    return tuple(a[2] * y for y in b)
+                if b[0] == b[1] == 0:
+                    return tuple(b[2] * x for x in a)
+            return None
+        if isinstance(e, ast.IfExp):
+            st = is_sign_test(e.test)
+            if st is None:
+                return None
+            return ev(e.body) if st == negative else ev(e.orelse)
+        if isinstance(e, ast.Call) and (call_name(e) or '').endswith('timedelta'):
+            tot = (0, 0, 0)
+            for k in e.keywords:
+                v = ev(k.value)
+                scale = {'hours': 60, 'minutes': 1, 'seconds': 1 / 60, 'days': 1440}.get(k.arg)
+                if v is None or scale is None:
+                    return None
+                tot = tuple(t + scale * x for t, x in zip(tot, v))
+            if e.args:
+                return None
+            return tot
+        return None
+
+    def run(stmts):
+        for st in stmts:
+            if isinstance(st, ast.Assign) and len(st.targets) == 1:
+                t = st.targets[0]
+                v = ev(st.value)
+                if isinstance(t, ast.Name):
+                    if v is not None:
+                        env[t.id] = v
+                    else:
+                        env.pop(t.id, None)
+                elif isinstance(t, ast.Attribute) and 'offset' in t.attr.lower():
+                    result.append(v)
+            elif isinstance(st, ast.AugAssign) and isinstance(st.target, ast.Name):
+                v = ev(ast.BinOp(left=st.target, op=st.op, right=st.value))
+                if v is not None:
+                    env[st.target.id] = v
+                else:
+                    env.pop(st.target.id, None)
+            elif isinstance(st, ast.If):
+                sg = is_sign_test(st.test)
+                if sg is None:
+                    # not about the sign: e.g. the `tz_match is None` refusal - skip raising branches
+                    if st.body and isinstance(st.body[-1], ast.Raise):
+                        run(st.orelse)
+                    else:
+                        return False
+                else:
+                    run(st.body if sg == negative else st.orelse)
+        return True
+    run(fn.body)
+    if not result or result[-1] is None:
+        return None
+    r = result[-1]
+    return tuple(int(x) if float(x).is_integer() else x for x in r)
 
 
 def const_str(n: ast.AST) -> str | None:
